@@ -97,6 +97,10 @@ def replay(pid, corpus_mod, path):
     tps = {t.name: t for t in mod.templates(Cfg.for_tier("thorough"))}
     tps.update({t.name: t for t in mod.templates(Cfg.for_tier("quick"))})
     tp = tps.get(payload["template"])
+    if tp is None and "gen." in payload["template"]:
+        from ..corpora import gen
+
+        tp = gen.by_name(payload["template"])  # generated programs are a function of their name
     if tp is None:
         print(f"template {payload['template']} not in corpus")
         return 3
